@@ -78,6 +78,18 @@ def cli_signature(pid, what, source, sc, events):
     if meta.get("kind") == "select":
         if what == "processed_twice":
             return "%s|%s|args=%s" % (source, what, meta["sc"]["argset"])
+        if meta["sc"].get("globs") and what == "unselected_processed":
+            # which kind of file was processed although the specification does not select it: one class per
+            # (glob list, kinds) - a selecting glob also lets hidden files and files excluded by .styluaignore through
+            fin = next((e for e in events if e.get("ev") == "Final"), {})
+            proc = set(o["path"] for o in fin.get("files", []) if o.get("tag") == "cand" and not o.get("same_bytes", True))
+            extra = proc - set(meta.get("selected", [])) - set(meta.get("maybe", []))
+            ign = set(meta.get("ignored", []))
+            kinds = sorted(set("ignored-by-styluaignore" if f in ign else
+                               "hidden" if any(c.startswith(".") and c not in (".", "..") for c in f.split("/")) else
+                               "other:" + f for f in extra))
+            return "%s|%s|globs=%s;flags=%s;extra=%s" % (source, what, meta["sc"].get("globset"),
+                                                          "+".join(k for k in ("respect", "allow_hidden") if meta["sc"].get(k)) or "none", ",".join(kinds))
         if meta["sc"].get("respect") and any(a["kind"] == "file" for a in meta["sc"]["args"]):
             # one class: explicit paths with --respect-ignores consult only the ignore file of their own directory, else the cwd's
             return "%s|%s|%s;explicit-file-with-respect-ignores" % (source, what, meta["sig"])
